@@ -18,13 +18,13 @@ _rewrite_symbols = {
     '{': '(?:',
     ',': '|',
     '}': ')',
-    '*': '.*',  # BUG: # lo ignora el * si luego viene ?, [, { o literal, por ejemplo: '/*bc'.matchOSCAddressPattern('/abc') es false y re.match('.bc', 'abc') devuelve match. Está en el párrafo anterior al cuadro en la especificación, dice que cada caracter de pattern debe coincidir con el próximo substring de address Y que todo caracter en address debe ser emparejado con algo de pattern.
+    '*': '[^/]*',  # BUG: # lo ignora el * si luego viene ?, [, { o literal, por ejemplo: '/*bc'.matchOSCAddressPattern('/abc') es false y re.match('.bc', 'abc') devuelve match. Está en el párrafo anterior al cuadro en la especificación, dice que cada caracter de pattern debe coincidir con el próximo substring de address Y que todo caracter en address debe ser emparejado con algo de pattern.
     # '[': '[',  # Same.
     # '-': '-',  # Same behaviour inside/outside brackets.
-    '[!': '[^',
+    '[!': '[^/',
     # ']': ']',  # Same.
     '-]': ']', # Discard '-' before closing bracket.
-    '?': '.'
+    '?': '[^/]'
 }
 
 
